@@ -87,6 +87,10 @@ pub struct CeremonyTrace {
     /// carries over from one call, and from one ceremony, to the next) instead of a fresh thread each
     #[serde(default)]
     pub same_thread: bool,
+    /// two different strings whose canonical encodings are compared directly (C05: no two distinct values
+    /// may share one encoding) — the pair comes from the family of near-collision spellings of a leaf
+    #[serde(default)]
+    pub canon_pair: Option<(String, String)>,
 }
 
 /// The same key material declared with another scheme (None if the library refuses to build it).
@@ -295,6 +299,15 @@ pub fn finish(t: &CeremonyTrace, p: &Prepared) -> CeremonyOutcome {
             }
         }
     }
+    if let Some((a, b)) = &t.canon_pair {
+        if a != b {
+            if let (Ok(ca), Ok(cb)) = (Json::canonicalize(&json!(a)), Json::canonicalize(&json!(b))) {
+                if ca == cb {
+                    out.canon_collision = Some(format!("{:?} and {:?} both canonicalize to {}", a, b, String::from_utf8_lossy(&ca).chars().take(120).collect::<String>()));
+                }
+            }
+        }
+    }
     let text = match &t.wire {
         Wire::Compact => serde_json::to_string(&cur).unwrap(),
         Wire::Pretty => serde_json::to_string_pretty(&cur).unwrap(),
@@ -410,7 +423,7 @@ pub fn judge_ceremony(t: &CeremonyTrace, o: &CeremonyOutcome) -> Vec<Finding> {
         f.push(Finding {
             prop: "C05".into(),
             clause: "distinct-values-same-canonical-bytes".into(),
-            detail: format!("edit {:?}: the edited signed part is another JSON value than the original, both canonicalize to {c}", t.ops),
+            detail: if t.canon_pair.is_some() { format!("two different strings share one canonical encoding: {c}") } else { format!("edit {:?}: the edited signed part is another JSON value than the original, both canonicalize to {c}", t.ops) },
         });
     }
     if o.unsignable.is_some() || !o.parsed {
@@ -677,8 +690,12 @@ pub fn gen_body(r: &mut Rng, seed: u64, keys: &mut Vec<KeySpec>) -> BodySpec {
                 s.cmd = vec![gen::text(r)];
             }
             if r.chance(1, 3) {
-                let pre = ["src", "out/", "./x", "a//b", "", "\u{e9}", " ", "/", "x/../y", "d/"];
-                s.exp_mat.push(vec!["MATCH".into(), gen::text(r), "IN".into(), r.pick(&pre).to_string(), "WITH".into(), "PRODUCTS".into(), "IN".into(), r.pick(&pre).to_string(), "FROM".into(), gen::text(r)]);
+                // (among the values: words that are keywords of the rule grammar — a path may be called WITH)
+                let pre = ["src", "out/", "./x", "a//b", "", "\u{e9}", " ", "/", "x/../y", "d/", "WITH", "FROM", "IN", "MATCH", "PRODUCTS", "MATERIALS"];
+                let kw = ["WITH", "FROM", "IN", "MATCH", "PRODUCTS", "ALLOW"];
+                let pat = if r.chance(1, 6) { r.pick(&kw).to_string() } else { gen::text(r) };
+                let from = if r.chance(1, 5) { r.pick(&kw).to_string() } else { gen::text(r) };
+                s.exp_mat.push(vec!["MATCH".into(), pat, "IN".into(), r.pick(&pre).to_string(), "WITH".into(), "PRODUCTS".into(), "IN".into(), r.pick(&pre).to_string(), "FROM".into(), from]);
                 s.exp_mat.push(vec!["MATCH".into(), "*".into(), "IN".into(), "src".into(), "WITH".into(), "MATERIALS".into(), "IN".into(), "dst".into(), "FROM".into(), s.name.clone()]);
                 s.exp_prod.push(vec![r.pick(&["CREATE", "DELETE", "MODIFY", "ALLOW", "REQUIRE", "DISALLOW"]).to_string(), "out/*".into()]);
             }
@@ -768,6 +785,7 @@ fn base_trace(seed: u64, tier: Tier, mode: Mode) -> (CeremonyTrace, Rng) {
         },
         mem_sigdup: vec![],
         same_thread: gen::same_thread_block(seed),
+        canon_pair: None,
     };
     (t, r)
 }
@@ -937,6 +955,27 @@ pub fn run_c04(tier: Tier, seed: u64, index: u64, rec: &mut RunRecord) {
             return;
         }
     }
+    if t.same_thread && !t.ops.is_empty() && r.chance(1, 2) {
+        // on the long-lived thread: the untouched block is verified first (a consumer that has seen the
+        // genuine document, then receives the same content with damaged, swapped or relabelled signature
+        // entries): what the first call learnt must not count for the second
+        let mut genuine = t.clone();
+        genuine.ops.clear();
+        genuine.mem_sigdup.clear();
+        genuine.labels = vec!["GENUINE".into()];
+        genuine.authorized = genuine.signers.clone();
+        genuine.auth_scheme.clear();
+        genuine.auth_json_alias.clear();
+        genuine.threshold = 1;
+        t.labels.push("AFTER-GENUINE".into());
+        crate::crash::write_current_trace(&Trace::Seq(vec![Trace::Ceremony(genuine.clone()), Trace::Ceremony(t.clone())]));
+        let p = prepare(&t);
+        let o = finish(&genuine, &p);
+        let f = judge_ceremony(&genuine, &o);
+        fold(&genuine, &o, f, rec, seed, index, "C04");
+        exec_prepared(&t, &p, rec, seed, index, "C04", Some(&genuine));
+        return;
+    }
     exec_and_fold(&t, rec, seed, index, "C04");
 }
 
@@ -1068,7 +1107,73 @@ pub fn near_collisions(s: &str) -> Vec<String> {
     v
 }
 
+/// A document with a LARGE collection (sizes around the powers of two, where implementations switch
+/// strategy: batches, worker threads, buffers), edited at the extremes of the collection's sorted order.
+fn c05_big(tier: Tier, seed: u64, index: u64, rec: &mut RunRecord) {
+    let (mut t, _) = base_trace(seed, tier, Mode::C05);
+    let mut r = Rng::stream(seed, "c05-big");
+    let n = *r.pick(&[255usize, 257, 1023, 1025, 2047, 2049, 2050, 2051, 4095, 4097, 4099, 8193]) + r.idx(2) * 4;
+    let mut arts = Artifacts::new();
+    for i in 0..n {
+        arts.insert(format!("out/{:05}.o", i), gen::digest_of(i as u64 % 97, false));
+    }
+    let as_array = r.chance(1, 3);
+    t.body = BodySpec::Link(LinkSpec {
+        name: "big".into(),
+        materials: Artifacts::new(),
+        products: if as_array { Artifacts::new() } else { arts },
+        stdout: Some(String::new()),
+        stderr: Some(String::new()),
+        retval: Some(0),
+        other: BTreeMap::new(),
+        command: if as_array { (0..n).map(|i| format!("arg{i}")).collect() } else { vec![] },
+        env: None,
+    });
+    t.signers.truncate(2);
+    t.authorized = t.signers.clone();
+    t.resign.clear();
+    t.wire = Wire::Compact;
+    t.threshold = 1;
+    t.typed_api = false;
+    t.raw_path = None;
+    let prepared = prepare(&t);
+    let mut genuine = t.clone();
+    genuine.labels = vec!["GENUINE".into(), "BIG".into()];
+    {
+        let o = finish(&genuine, &prepared);
+        fold(&genuine, &o, vec![], rec, seed, index, "C05");
+    }
+    let mut edits: Vec<DocOp> = vec![];
+    if as_array {
+        for i in [0, 1, n / 2, n - 3, n - 2, n - 1] {
+            edits.push(DocOp::Set { ptr: format!("/signed/command/{i}"), value: json!("changed") });
+            edits.push(DocOp::Remove { ptr: format!("/signed/command/{i}") });
+        }
+        edits.push(DocOp::Insert { ptr: "/signed/command".into(), index: n, values: vec![json!("one-more")] });
+        edits.push(DocOp::Insert { ptr: "/signed/command".into(), index: 0, values: vec![json!("one-more")] });
+    } else {
+        for i in [0, 1, n / 2, n - 3, n - 2, n - 1] {
+            let p = format!("/signed/products/out~1{:05}.o", i);
+            edits.push(DocOp::Set { ptr: format!("{p}/sha256"), value: json!(gen::sha256_hex(b"changed")) });
+            edits.push(DocOp::Remove { ptr: p });
+        }
+        edits.push(DocOp::Set { ptr: "/signed/products/zzz-sorts-last".into(), value: json!({"sha256": gen::sha256_hex(b"new")}) });
+        edits.push(DocOp::Set { ptr: "/signed/products/a-sorts-first".into(), value: json!({"sha256": gen::sha256_hex(b"new")}) });
+    }
+    for e in edits {
+        let mut tt = t.clone();
+        tt.ops = vec![e];
+        tt.labels = vec!["EDIT".into(), "BIG".into()];
+        exec_prepared(&tt, &prepared, rec, seed, index, "C05", Some(&genuine));
+    }
+    rec.probe("document with a collection of 255 .. 8197 members, edited at the extremes of its order");
+}
+
 pub fn run_c05(tier: Tier, seed: u64, index: u64, rec: &mut RunRecord) {
+    // one document in twenty-five is a large one
+    if Rng::stream(seed, "c05-big?").chance(1, 25) {
+        return c05_big(tier, seed, index, rec);
+    }
     let (mut t, mut r) = base_trace(seed, tier, Mode::C05);
     t.wire = if r.chance(1, 2) { Wire::Compact } else { Wire::Pretty };
     t.threshold = 1;
@@ -1112,6 +1217,35 @@ pub fn run_c05(tier: Tier, seed: u64, index: u64, rec: &mut RunRecord) {
         }
         match old {
             Value::String(s) => {
+                // the family of near-collision spellings of this string, with every control character and a
+                // few separators appended in turn: pairwise different strings, pairwise different encodings
+                {
+                    let mut family: Vec<String> = near_collisions(s);
+                    family.push(s.clone());
+                    for c in (0u32..0x20).chain([0x7f, 0x80, 0x85, 0xa0, 0x2028, 0x2029, 0xfeff, 0xfffd, 0x10000]) {
+                        if let Some(ch) = char::from_u32(c) {
+                            family.push(format!("{s}{ch}"));
+                            family.push(format!("{s}{ch}x"));
+                        }
+                    }
+                    family.sort();
+                    family.dedup();
+                    let mut by_bytes: BTreeMap<Vec<u8>, String> = BTreeMap::new();
+                    for m in family {
+                        if let Ok(c) = Json::canonicalize(&json!(m)) {
+                            if let Some(other) = by_bytes.get(&c) {
+                                let mut tt = t.clone();
+                                tt.ops.clear();
+                                tt.canon_pair = Some((other.clone(), m.clone()));
+                                tt.labels = vec!["CANON-PAIR".into()];
+                                exec_prepared(&tt, &prepared, rec, seed, index, "C05", None);
+                                break;
+                            }
+                            by_bytes.insert(c, m);
+                        }
+                    }
+                    rec.probe("family of spellings of one string compared pairwise in canonical form");
+                }
                 for n in near_collisions(s) {
                     edits.push(DocOp::Set { ptr: ptr.clone(), value: json!(n) });
                 }
